@@ -82,6 +82,7 @@ def declare(reg):
             "command": "str",
             "uid_command": "bool",
             "fetch_peek": "bool",
+            "fetch_atts": "list[ref:FetchAtt]",
             "msg_set": "opt[list[MsgElt]]",
             "msg_set_as_set": "opt[set[int]]",
             "completed": "bool",
